@@ -281,6 +281,7 @@ def _filter_contract(key, level_expr, extra_params=None, canaries=()):
         key, params=params, returns=_RESULT_T,
         requires=[_SORTED_BY_CHROM.replace("T", "segarr"), "forall(0, len(segarr.data), lambda k: segarr.data.weight[k] >= 0)"],
         ensures=[(lab, wrap % text) for lab, text in _RUN_CLAUSES],
+        ghost=dict(decorated="require_column only raises when the named columns are missing; they are present here"),
         props=("C14",), domain="skip", canaries=list(canaries),
     )
 
